@@ -96,6 +96,9 @@ class Channel(AsyncIterable, Generic[ST]):
         try:
             while True:
                 while buffer:
+                    # like a Queue, do not hand out buffered messages
+                    # without letting other activities run
+                    await postpone()
                     yield buffer.popleft()
                 if self._closed:
                     break
